@@ -276,8 +276,9 @@ func (c *ctx) measured(inLen int, fn func()) (excess uint64, exact uint64) {
 // Decoders run on the run goroutine (so that panics keep their stack). A decode
 // that never returns cannot be turned into a violation from inside; the
 // watchdog prints the input and kills the process, which the orchestrator
-// reports as TROUBLE with this text. Two minutes inside one decode call is
-// six orders of magnitude above the normal cost; CPU contention cannot trip it.
+// reports as TROUBLE with this text. 90 s inside one decode call is six orders
+// of magnitude above the normal cost (and below the orchestrator's own 150 s
+// worker watchdog, so that the input gets printed); CPU contention cannot trip it.
 
 type inflight struct {
 	what string
@@ -315,7 +316,7 @@ func startWatchdog() {
 					continue
 				}
 				ticks++
-				if ticks >= 60 {
+				if ticks >= 45 {
 					buf := make([]byte, 1<<20)
 					buf = buf[:runtime.Stack(buf, true)]
 					fmt.Fprintf(os.Stderr, "%s\nHANG world=bytes decoder=%s did not return within %d watchdog ticks of 2s; input=%s\n", buf, p.what, ticks, hex.EncodeToString(p.data))
